@@ -91,7 +91,7 @@ pub const SHAPES: &[&str] = &[
     "nest-noselector", "nest-selector", "nest-nth-of-type", "stray-end-tags", "long-tag-name", "long-comment", "long-attr", "long-text",
     "many-attrs", "many-selectors", "deep-not-selector", "nest-close-all", "many-text-nodes-sjis",
     "deep-not-selector-after-escaped-dquote", "deep-not-selector-after-escaped-squote", "deep-not-selector-after-escaped-ident", "deep-not-selector-in-list",
-    "many-selectors-distinct",
+    "many-selectors-distinct", "big-insert-legacy", "big-insert-utf8", "big-streaming-insert-legacy", "big-attr-value-set",
 ];
 
 fn cpu_seconds() -> f64 {
@@ -116,6 +116,23 @@ pub fn shape_child(shape: &str, n: usize) -> i32 {
         "many-selectors" => (
             Cfg::with((0..n / 50).map(|i| HSpec { log: false, ..HSpec::obs(HKind::Element, &format!("div.c{i} > span[k{i}]")) }).collect()).strict(false),
             "<div class=c1><span k1></span></div>".repeat(200).into_bytes(),
+        ),
+        // one inserted content piece of several hundred KiB .. MiB (encoder scratch buffers)
+        "big-insert-legacy" => (
+            Cfg::with(vec![HSpec { log: false, ..HSpec::with_ops(HKind::Element, "a", vec![Op::After("\u{e9}x".repeat(n * 3), true), Op::Prepend("\u{416}".repeat(n), false)]) }]).strict(false).enc("windows-1252"),
+            b"<a>t</a>".to_vec(),
+        ),
+        "big-insert-utf8" => (
+            Cfg::with(vec![HSpec { log: false, ..HSpec::with_ops(HKind::Element, "a", vec![Op::Before("\u{e9}<".repeat(n * 3), false)]) }, HSpec { log: false, ..HSpec::with_ops(HKind::DocEnd, "", vec![Op::Append("\u{20ac}".repeat(n * 2), true)]) }]).strict(false),
+            b"<a>t</a>".to_vec(),
+        ),
+        "big-streaming-insert-legacy" => (
+            Cfg::with(vec![HSpec { log: false, ..HSpec::with_ops(HKind::Element, "a", vec![Op::Append("\u{30a2}y".repeat(n * 3), true)]) }]).strict(false).enc("Shift_JIS").streaming(true),
+            b"<a>t</a>".to_vec(),
+        ),
+        "big-attr-value-set" => (
+            Cfg::with(vec![HSpec { log: false, ..HSpec::with_ops(HKind::Element, "a", vec![Op::SetAttr("k".into(), "\u{e9}\"".repeat(n * 2)), Op::SetAttr("j".into(), "v".repeat(n * 5))]) }]).strict(false).enc("windows-1252"),
+            b"<a k=1>t</a>".to_vec(),
         ),
         "many-selectors-distinct" => (
             Cfg::with((0..(n / 1000).max(70)).map(|i| HSpec { log: false, ..HSpec::obs(HKind::Element, &format!("x{i}")) }).collect()).strict(false),
